@@ -400,9 +400,18 @@ ocp.set_der(v, a)
 
         f = ca.Function("f",v_symbols+[fixed_parameters,spline_symbols,stage.t],[expr])
         F = f.map(self.N*refine+1-max_offset+min_offset,len(v_symbols)*[False]+ [True,False,False])
-        results = F(*v_expressions,fixed_parameters,spline_traj,time)
+        results = self.eval(stage, F(*v_expressions,fixed_parameters,spline_traj,time))
 
-        return time, self.eval(stage, results)
+        # Leave out the first/last grid point when asked to
+        # (unless an offset already made the expression unavailable there)
+        if not include_first and min_offset==0:
+            time = time[1:]
+            results = results[:,1:]
+        if not include_last and max_offset==0:
+            time = time[:-1]
+            results = results[:,:-1]
+
+        return time, results
 
 
 
@@ -460,7 +469,7 @@ ocp.set_der(v, a)
             ub = ca.vcat(ubs[k])
             canon = ca.vcat(canons[k])
 
-            _,results = self.grid_control(stage, canon, 'control', refine=refine)
+            _,results = self.grid_control(stage, canon, 'control', refine=refine, include_first=include_first, include_last=include_last)
             assert canon.is_column()
             canon_sym = MX.sym("canon_sym",canon.size1(),refine)
             # Do a grouping along refinement grid if requested
@@ -496,8 +505,6 @@ ocp.set_der(v, a)
                     self.opti.subject_to(self.eval(stage, results_max <= ub))
                     self.opti.subject_to(self.eval(stage, results_end <= ub))
             else:
-                # Leave out the first/last grid point when the constraint was declared so
-                results = results[:, (0 if include_first else 1):(results.shape[1] if include_last else results.shape[1]-1)]
                 n = results.shape[1]
                 lb = ca.repmat(lb,1,n)
                 ub = ca.repmat(ub,1,n)
